@@ -785,13 +785,24 @@ def devirtualize_fn_values(doc):
                 d = defs.get(pl['local'], [])
                 if len(d) == 1 and d[0] is not None:
                     rv = d[0]
-                    if rv['k'] == 'use':
+                    if rv['k'] in ('use', 'cast'):   # `f as fn(..)` (reification of a function item) keeps the function
                         return fn_item(rv['op'], depth + 1)
                     if rv['k'] in ('ref', 'copy_for_deref') and not [p for p in rv['place']['proj'] if p['k'] != 'deref']:
                         return fn_item({'k': 'copy', 'place': {'local': rv['place']['local'], 'proj': []}}, depth + 1)
             return None
         for blk in b['blocks']:
             t = blk['term']
+            if t['k'] == 'call' and 'indirect' in t['func']:
+                # a call through a `fn(..)` pointer whose value is a known function item
+                path = fn_item(t['func']['indirect'])
+                if path is not None and path in by_path:
+                    target = by_path[path]
+                    f = {'def': path, 'generic_args': [], 'name': target['name'], 'local': True}
+                    if target.get('impl_self'):
+                        f['impl_self'] = target['impl_self']
+                    t['func'] = f
+                    n += 1
+                continue
             if t['k'] != 'call' or t['func'].get('def') not in ('std::ops::Fn::call', 'std::ops::FnMut::call_mut', 'std::ops::FnOnce::call_once') or len(t['args']) != 2:
                 continue
             path = fn_item(t['args'][0])
@@ -1807,6 +1818,11 @@ class Resolver:
             return args[0]
         if self.level >= 1 and c.short in ('From::from', 'Into::into') and len(args) == 1:
             return args[0]
+        if self.level >= 1 and c.name == 'unwrap_or_else' and len(args) == 2 and args[1][0] == 'closure':
+            # `x.unwrap_or_else(|e| panic!(..))`: the fallback never returns, the value is the payload of x (like unwrap / expect)
+            cb = self.body.facts.by_path.get(args[1][1])
+            if cb is not None and not any(bl['term']['k'] == 'return' for _, bl in cb.live_blocks()):
+                return self._payload(args[0], 'Ok')
         return ('call', c.short, args, bb)
 
     def rvalue(self, rv, bb, idx):
